@@ -204,6 +204,108 @@ def header_default_history():
     return [mk(3, 7), mk(4, 7), mk(4, 9)], ["initial", "helper-const: body constant of h0 (named only in the header of h1)", "helper-const: body constant of h2 (named only in the header of m1)"]
 
 
+DECL_PROGRAM = """
+import builtins
+from twosigma.memento import memento_function
+
+OFFSET = 1
+
+def _vt(ev):
+    t = getattr(builtins, '_vt', None)
+    if t is not None:
+        t(ev)
+
+@memento_function(cluster='fc')
+def price_v1(x):
+    return x + OFFSET
+
+@memento_function(cluster='fc')
+def price_v2(x):
+    return x + 1000
+
+price = price_v1
+
+@memento_function(cluster='fc', dependencies=[price_v1])
+def total_dynamic(x):
+    # a hidden dynamic call, declared as the undeclared-dependency error asks
+    return globals()['price_v1'](x) * 2
+
+@memento_function(cluster='fc', dependencies=[price])
+def total_direct(x):
+    # an ordinary call through an alias, declared as well
+    return price(x) * 3
+
+@memento_function(cluster='fc')
+def report(x):
+    return [total_dynamic(x), total_direct(x)]
+%s
+"""
+
+DECL_SCRIPT = """
+import importlib, json, os, sys
+root, store, rebind = sys.argv[1], sys.argv[2], sys.argv[3]
+sys.path.insert(0, root)
+os.environ['HOME'] = root
+import logging; logging.disable(logging.CRITICAL)
+import twosigma.memento as m
+from twosigma.memento.storage_filesystem import FilesystemStorageBackend
+m.Environment.set(m.Environment(name='x', base_dir=root, repos=[m.ConfigurationRepository(name='r', clusters={'fc': m.FunctionCluster(name='fc', storage=FilesystemStorageBackend(path=store))})]))
+mod = importlib.import_module(sys.argv[4])
+out = []
+def obs(label):
+    row = {'step': label}
+    for name in ('total_dynamic', 'total_direct', 'report'):
+        f = getattr(mod, name)
+        try:
+            row[name] = f(4)
+        except Exception as e:
+            row[name] = 'ERR ' + type(e).__name__
+    out.append(row)
+obs('initial')
+if rebind == 'inproc':
+    mod.price_v1 = mod.price_v2          # the implementation in use is switched inside the running process
+    mod.price = mod.price_v2
+    obs('after re-binding price_v1 and price to price_v2')
+    mod.OFFSET = 5
+    obs('after OFFSET = 5 (no longer used)')
+print('@@' + json.dumps(out))
+"""
+
+
+def declared_dependency_scenario(scratch, rep, stats):
+    """dependencies=[...] declared by hand (for a hidden dynamic call, and for an alias): the declared name is re-bound to
+    another registered memento function inside the running process"""
+    import json
+    import subprocess
+    root = os.path.join(scratch, "decl")
+    os.makedirs(root, exist_ok=True)
+    with open(os.path.join(root, "decl_a.py"), "w") as f:
+        f.write(DECL_PROGRAM % "")
+    with open(os.path.join(root, "drun.py"), "w") as f:
+        f.write(DECL_SCRIPT)
+    env = dict(os.environ, PYTHONPATH=C.REPO, PYTHONHASHSEED="0")
+    want = {"initial": {"total_dynamic": 10, "total_direct": 15, "report": [10, 15]},
+            "rebound": {"total_dynamic": 2008, "total_direct": 3012, "report": [2008, 3012]}}
+
+    def run(rebind, mod, store):
+        pr = subprocess.run([C.PY, os.path.join(root, "drun.py"), root, os.path.join(root, store), rebind, mod], capture_output=True, text=True, timeout=180, env=env)
+        line = [l for l in pr.stdout.splitlines() if l.startswith("@@")]
+        return json.loads(line[0][2:]) if line else [{"step": "script failed", "error": (pr.stderr or pr.stdout)[-400:]}]
+    rows = run("inproc", "decl_a", "store-a")
+    stats["declared_dependency_steps"] = len(rows)
+    meta = {"program": "decl_a.py: total_dynamic (hidden call of price_v1, declared), total_direct (call through alias price, declared), report", "observed": rows}
+    for row in rows:
+        if "error" in row:
+            rep.violation("C01:declared-dependency-scenario-raised", row["error"][:300], meta)
+            return
+        exp = want["initial"] if row["step"] == "initial" else want["rebound"]
+        for name, v in exp.items():
+            got = row.get(name)
+            if got != v and not (isinstance(got, str) and got.startswith("ERR UndeclaredDependencyError")):
+                rep.violation("C01:stale-result:in-process:declared-dependency-rebound", "%s(4) returned %r at step '%s'; the current program computes %r" % (name, got, row["step"], v), meta)
+                return
+
+
 def calls_of(spec):
     return [[m, x] for m in vprog.mnames(spec) if vprog.node(spec, m)["explicit"] is None for x in (1, 2)]
 
@@ -346,6 +448,7 @@ def run(tier, seed):
                             metas.append(dict(meta0, pair=[a, b], function=m, mode=mode, versions=[va, vb]))
             if len(rep.samples) < 2:
                 rep.samples.append({"edits": descs, "first_edition": eds[0]})
+        declared_dependency_scenario(scratch, rep, stats)
     try:
         res = C.run_coq_cases("c01", HEADER, terms, "vers_case", shard=150, case_type="list (nat * sym) * list (nat * sym) * nat * bool * bool")
     except RuntimeError as e:
